@@ -100,8 +100,17 @@ func build(r *rand.Rand, op *connfake.Op, v int16, errs []int16, withRecords boo
 	}
 	w := &connfake.W{Errs: append([]int16(nil), errs...)}
 	op.Build(v, w, r, sh)
+	lastErrPos = append([]int(nil), w.ErrPos...)
 	return &inst{op, v, w.B, sh}, len(w.ErrPos)
 }
+
+// lastErrPos: byte offsets (in the body) of the error-code fields of the response build() rendered last.
+var lastErrPos []int
+
+// splitAt >= 0: scenario delivers A's response in two pieces — the first splitAt bytes of the frame, a pause, the
+// rest (TCP segmentation / a slow broker): nothing is lost, the client just cannot count on the whole response being
+// in its read buffer when it has parsed the beginning.
+var splitAt = -1
 
 type result struct {
 	res    string
@@ -168,7 +177,11 @@ func scenario(a, b *inst) (line string, slow bool) {
 		br.Push(a.op.Key, connfake.Resp{Body: w.body, Cut: -1})
 		guarded(c, w)
 	}
-	br.Push(a.op.Key, connfake.Resp{Body: a.body, Cut: -1})
+	if splitAt >= 0 && splitAt < 8+len(a.body) {
+		br.Push(a.op.Key, connfake.Resp{Body: a.body, Cut: splitAt, Pause: 10 * time.Millisecond})
+	} else {
+		br.Push(a.op.Key, connfake.Resp{Body: a.body, Cut: -1})
+	}
 	br.Push(b.op.Key, connfake.Resp{Body: b.body, Cut: -1})
 	resA, _ := guarded(c, a)
 	if resA == "shortbuf" {
@@ -194,6 +207,10 @@ func scenario(a, b *inst) (line string, slow bool) {
 		}
 	}
 	impl := fmt.Sprintf("%s %s %s %s", resA, unread, resB, same)
+	if splitAt >= 0 {
+		// c11k <topic> <split position> …: same exchange for the model, the position is kept for the replay
+		return fmt.Sprintf("c11k %s %d %s %s\t%s", gen.Hex([]byte(topic)), splitAt, a, b, impl), time.Since(t0) > time.Second
+	}
 	return fmt.Sprintf("c11 %s %s %s\t%s", gen.Hex([]byte(topic)), a, b, impl), time.Since(t0) > time.Second
 }
 
@@ -662,6 +679,30 @@ func main() {
 			a.op.Build(v, w, r, a.sh)
 			a.body = w.B
 			emit(a, follower(a))
+		}
+	}
+	// responses that arrive in two pieces (the model's stream does not know about pieces: same expected lines): every
+	// operation × version, with a broker error code, split right after each error-code field — where a drain must wait
+	// for the rest instead of skipping only what is buffered — and at a random place; without error at a random place
+	for _, op := range connfake.Ops {
+		if nslow >= 5 {
+			break
+		}
+		for _, v := range op.Versions {
+			a, _ := build(r, op, v, []int16{codes[r.Intn(len(codes))]}, false)
+			var ks []int
+			for _, p := range lastErrPos {
+				ks = append(ks, 8+p+2)
+			}
+			ks = append(ks, 1+r.Intn(8+len(a.body)-1))
+			for _, k := range ks {
+				splitAt = k
+				emit(a, follower(a))
+			}
+			a2, _ := build(r, op, v, nil, op.Name == "fetch")
+			splitAt = 1 + r.Intn(8+len(a2.body)-1)
+			emit(a2, follower(a2))
+			splitAt = -1
 		}
 	}
 	// the version cache: a broker error on the ApiVersions exchange of the first negotiating operation is what the
